@@ -131,7 +131,7 @@ func init() {
 		func(p *Prog, r *Report) {
 			ruleOwnPrivate(p, r, []string{"mxj.MapSeq.Xml", "mxj.MapSeq.XmlIndent", "mxj.BeautifyXml"})
 		},
-		rulePairSeq, ruleSeqUnwind, ruleSeqResult, ruleSeqTypes, ruleSeqLeafKeys, ruleRootSingle, ruleRootOwnKey, ruleEscVerbatim, ruleNoUnsafe, ruleInflCover,
+		rulePairSeq, ruleSeqUnwind, ruleSeqResult, ruleSeqTypes, ruleSeqLeafKeys, ruleRootSingle, ruleRootOwnKey, ruleEscVerbatim, ruleNoUnsafe, ruleInflCover, ruleTableEscape,
 		func(p *Prog, r *Report) { ruleErrContent(p, r, []string{"mxj.mapToXmlSeqIndent"}) },
 		func(p *Prog, r *Report) { ruleTextNonEmpty(p, r, []string{"mxj.xmlSeqToMapParser"}) },
 		func(p *Prog, r *Report) { ruleTextTrimSet(p, r, []string{"mxj.xmlSeqToMapParser"}) },
